@@ -338,9 +338,18 @@ OuterOps(S) ==
 OpSane(op) == (op.a = "act" => (op.n = 1 \/ Kind(op.e) = "sig") /\ (op.r = 6 => Kind(op.e) = "io"))
               /\ (op.a = "wnew" => (op.s = "new" => op.e < NW))
 
+(* directed family guard (see HeapPatOK): with "heappat" in Acts only the pattern's next op is enabled *)
+HeapStepOK(s, i) ==
+  CASE i <= 6 -> s.a = "add" /\ s.e = 10 + i /\ s.t \in {1, 2, 3, 10, 11, 12}
+    [] i = 7 -> s.a = "del" /\ s.e \in 11..16
+    [] i = 8 -> s.a = "add" /\ s.e = 17 /\ s.t = 20
+    [] i = 9 -> s.a = "add" /\ s.e = 18 /\ s.t = 21
+    [] OTHER -> s.a = "loop" /\ s.f = 0 /\ s.pol = "exact"
+PatGuard(op) == ("heappat" \in Acts) => HeapStepOK(op, Len(hist) + 1)
 Api ==
   /\ st.pc = "idle"
   /\ \E op \in OuterOps(st) :
+       /\ PatGuard(op)
        /\ OpSane(op) /\ OpLegal(st, op, 0)
        /\ LET R == ApplyOp(st, op) IN
           /\ st' = R.s
@@ -394,6 +403,7 @@ ApiLoop ==
   /\ \E f \in {0, 1, 2, 3, 4, 5}, pol \in {"exact", "over", "short"} :
        /\ (pol # "exact" => "pol" \in Acts)
        /\ (f \in {0, 4, 5, 3} => "flags" \in Acts)
+       /\ PatGuard([a |-> "loop", f |-> f, pol |-> pol])
        /\ st' = [st EXCEPT !.pc = "top", !.lflags = f, !.pol = pol, !.iters = 0, !.brk = FALSE, !.term = FALSE,
                            !.blocked = FALSE, !.forced = FALSE, !.cblog = <<>>, !.ret = 0, !.done = FALSE, !.amb = FALSE]
        /\ UNCHANGED hist
@@ -648,11 +658,28 @@ Inv == TypeOK /\ QueueFlagOK /\ CountOK /\ MaxOK /\ CommonQueueOK /\ OnlyAllocQu
 ----------------------------------------------------------------------------
 (* Generation: bound the number of outer calls; print complete histories. *)
 GenConstraint == Len(hist) <= D
-Emit == ((Len(hist) = D /\ st.pc = "idle") \/ st.pc = "dead") => PrintT(ToJson(hist))
+(* TLC evaluates invariants also on states that violate the CONSTRAINT (it only does not explore
+   them further), so the printing invariant repeats the constraint of the configuration *)
+EmitIf(c) == (c /\ ((Len(hist) = D /\ st.pc = "idle") \/ st.pc = "dead")) => PrintT(ToJson(hist))
+Emit == EmitIf(TRUE)
 (* generation without equal heap deadlines (used when callbacks have side effects,
    where the unspecified order of equal-deadline timers would matter) *)
 NoHeapTies == \A x, y \in Heap(st) : x # y => st.ev[x].dl # st.ev[y].dl
 GenConstraintNT == GenConstraint /\ NoHeapTies
+(* directed family for the timer heap: six timers with pairwise distinct deadlines (every
+   permutation), one of them deleted from the middle of the heap, two later timers added,
+   then one loop call that lets them all fire - exercises sift-up/sift-down on erase *)
+HeapPatOK ==
+  \A i \in 1..Len(hist) :
+    LET s == hist[i] IN
+    CASE i <= 6 -> s.a = "add" /\ s.e = 10 + i /\ s.t \in {1, 2, 3, 10, 11, 12}
+      [] i = 7 -> s.a = "del" /\ s.e \in 11..16
+      [] i = 8 -> s.a = "add" /\ s.e = 17 /\ s.t = 20
+      [] i = 9 -> s.a = "add" /\ s.e = 18 /\ s.t = 21
+      [] OTHER -> s.a = "loop" /\ s.f = 0 /\ s.pol = "exact"
+GenConstraintHeap == GenConstraint /\ NoHeapTies /\ HeapPatOK
+EmitNT == EmitIf(NoHeapTies)
+EmitHeap == EmitIf(NoHeapTies /\ HeapPatOK)
 EmitSim == TRUE
 StateView == <<st>>
 =============================================================================
